@@ -537,6 +537,13 @@ pub fn zoo() -> Vec<DefSpec> {
         (vec![step(&[], &[("Own8", f)], 0), step(&[], &[("Pod4", t)], 0), step(&[0], &[("OwnBox", f)], 0), step(&[0, 1], &[], 0)], f),
         // single empty variant
         (vec![step(&[], &[], 0)], f),
+        // zero-size data sharing their offset with a sized datum: added in the same step after it,
+        // added in a later step, in records made of Copy data only, droppable and plain
+        (vec![step(&[], &[("Pod4", t), ("Pod8", t)], 2), step(&[], &[("PodZ", t)], 0)], f),
+        (vec![step(&[], &[("Pod4", t)], 0), step(&[], &[("Pod8", t), ("PodZ", t)], 0), step(&[0], &[("Pod2", t)], 0)], f),
+        (vec![step(&[], &[("Pod4", t)], 0), step(&[], &[("OwnBox", f), ("OwnZ", f)], 0), step(&[1], &[("OwnZ", f), ("Own24", f)], 0)], f),
+        (vec![step(&[], &[("Own3", f), ("Own24", f)], 2), step(&[], &[("OwnZ", f), ("PodZ", t)], 0), step(&[0], &[("OwnZ4", f)], 0)], f),
+        (vec![step(&[], &[("Pod4", t), ("Pod4", t), ("Pod8", t)], 0), step(&[0], &[("PodZ", t)], 0), step(&[], &[("PodZ", f)], 1)], f),
         // a zero-size datum is the most aligned datum of the record
         (vec![step(&[], &[("Own3", f), ("OwnZ4", f)], 0), step(&[0], &[("Pod1", t)], 0)], f),
         (vec![step(&[], &[("Pod1", t), ("Own1", f)], 0), step(&[], &[("OwnZ4", f)], 0), step(&[0], &[("Pod3", f)], 0)], f),
@@ -555,9 +562,24 @@ pub fn zoo() -> Vec<DefSpec> {
         .collect()
 }
 
+/// The reduced family interpreted by Miri: every instrumented type, re-used bytes, a re-used
+/// name, zero-size data, odd sizes, an over-aligned type, a ghost, three strategies.
+pub fn miri_family() -> Vec<DefSpec> {
+    let keep = [1usize, 2, 3, 8, 13, 14, 16, 18, 20, 22, 26, 27, 28, 32];
+    let z = zoo();
+    let mut v: Vec<DefSpec> = keep.iter().filter_map(|i| z.get(*i).cloned()).collect();
+    v.push(z[z.len() - 2].clone()); // first ghost definition
+    v
+}
+
 pub fn family(tier: &str) -> Vec<DefSpec> {
+    if tier == "miri" {
+        return miri_family();
+    }
     let mut v = zoo();
-    let a3 = [(type_index("Pod4"), true), (type_index("Own8"), false), (type_index("OwnZ"), false)];
+    // a 4-aligned plain type that may stay uninitialised, an 8-aligned droppable type (padding
+    // gaps, hence zero-size data sharing an offset with a sized datum) and a droppable zero-size type
+    let a3 = [(type_index("Pod4"), true), (type_index("OwnBox"), false), (type_index("OwnZ"), false)];
     match tier {
         "thorough" => {
             let a6 = [
@@ -575,6 +597,7 @@ pub fn family(tier: &str) -> Vec<DefSpec> {
         }
         _ => {
             v.extend(histories(&a3, &[2, 1], &[0], "h3q"));
+            v.extend(histories(&a3, &[1, 2], &[0], "h3r"));
         }
     }
     v
